@@ -318,13 +318,13 @@ theorem rom_accepts (cr : CryptoOps) (hl : CryptoLaws cr) (sg : Signer) (fuel : 
 /-- **`rom_accepts_general`** (phase 3): the same for HAB4 FAST AUTHENTICATION (`fast = true`: `Install NOCAK` in the
     configuration — no CSF / image certificate is installed, the CSF is authenticated with key index 1 and the data with
     index 0, the SRK itself; also with Install Secret Key / Decrypt Data) and for NON-STANDARD but legal command orders:
-    any number of Set / Unlock / NOP commands in EVERY gap of the mandatory chain (`weave gaps …`: in front of Install
+    any number of Set / Unlock / NOP commands in EVERY gap of the mandatory chain, any data references as loaded (`L0`) (`weave gaps …`: in front of Install
     SRK, between any two mandatory commands, behind the last one), `GenCfg` (`Model/HabGen.lean`).  The reader accepts, derives exactly
     the two signed messages, the block lists and the AES-CCM plaintext, and reports the installed keys: the SRK source
     index of the configuration, a CSF and an image certificate iff the chain is the standard one. -/
 theorem rom_accepts_general (cr : CryptoOps) (hl : CryptoLaws cr) (sg : Signer) (fuel : Nat) (c : Cfg) (b : Built)
-    (s : StdCsf) (fast : Bool) (gaps : List (List Cmd))
-    (h : c.WF) (hs : GenCfg c s fast gaps) (ha : c.flags ≠ 0) (hb : build cr sg fuel c = some b)
+    (s : StdCsf) (fast : Bool) (gaps : List (List Cmd)) (L0 : Nat → Nat)
+    (h : c.WF) (hs : GenCfg c s fast gaps L0) (ha : c.flags ≠ 0) (hb : build cr sg fuel c = some b)
     (hfit : CsfWF c.version b.cmds)
     (hd : ∀ d, c.dcd = some d → DcdWF d) (hx : ∀ x, c.xmcd = some x → XmcdWF x)
     (hm : macLenOk c.macLen = true) (hn : 7 ≤ c.nonce.length ∧ c.nonce.length ≤ 13) (hver : c.version / 16 = 4)
@@ -334,18 +334,18 @@ theorem rom_accepts_general (cr : CryptoOps) (hl : CryptoLaws cr) (sg : Signer) 
       r.csfOff = c.csfOff ∧ r.hdrLen = csfHdrLen b.cmds ∧ r.authBlocks = offs c.ivtOff c.signedBlocks ∧
       r.decBlocks = (if isEnc c.flags then offs c.ivtOff c.encryptedBlocks else []) ∧
       r.srk.map (·.2.2) = some s.srkSrc ∧ r.csfCert.isSome = !fast ∧ r.imgCert.isSome = !fast :=
-  rom_accepts_general_lemma cr hl sg fuel c b s fast gaps h hs ha hb hfit hd hx hm hn hver hentry
+  rom_accepts_general_lemma cr hl sg fuel c b s fast gaps L0 h hs ha hb hfit hd hx hm hn hver hentry
 
 /-- the executable recogniser the model driver runs on EVERY signed configuration the harness generates (stream
     `images`, answer `shape=std|fast`): when it answers, the hypothesis `GenCfg` of `rom_accepts_general` holds for that
     configuration — the theorem speaks about the command lists `CsfHabSegment.load_from_config` really produces -/
-theorem gen_shape_sound (c : Cfg) (s : StdCsf) (fast : Bool) (gaps : List (List Cmd))
-    (h : genShape c = some (s, fast, gaps)) : GenCfg c s fast gaps :=
-  genShape_sound_lemma c s fast gaps h
+theorem gen_shape_sound (c : Cfg) (s : StdCsf) (fast : Bool) (gaps : List (List Cmd)) (L0 : Nat → Nat)
+    (h : genShape c = some (s, fast, gaps, L0)) : GenCfg c s fast gaps L0 :=
+  genShape_sound_lemma c s fast gaps L0 h
 
 /-- the standard shape of `rom_accepts` is the instance "standard chain, extras only between Authenticate CSF and
     Install Key" of the general one -/
-theorem std_cfg_general (c : Cfg) (s : StdCsf) (hs : StdCfg c s) : GenCfg c s false [[], [], [], s.extras] :=
+theorem std_cfg_general (c : Cfg) (s : StdCsf) (hs : StdCfg c s) : GenCfg c s false [[], [], [], s.extras] (fun _ => 0) :=
   { cmds := by rw [hs.cmds]; simp [weave, mainList, mainStd, StdCsf.core, StdCsf.list],
     gaps := by
       intro g hg e he
@@ -530,7 +530,7 @@ def exGaps : List (List Cmd) := [[.nop 0], [.unlock 0x1E 2 0], [], [.set 1 0x17 
 def exFast : Cfg :=
   { exAuth with cmds := weave exGaps (mainList true exS (fun _ => 0) (sigBlob 0x42 []) [] (sigBlob 0x42 []) none) }
 
-theorem exFast_gen : GenCfg exFast exS true exGaps :=
+theorem exFast_gen : GenCfg exFast exS true exGaps (fun _ => 0) :=
   { cmds := rfl, gaps := by decide, srkSrc := by decide, imgSlot := by decide, kek := by decide, keySlot := by decide,
     srkBlob := ⟨0x40, [1, 2, 3, 4], by decide, by decide⟩, csfCert := ⟨0x42, [5, 6, 7, 8], by decide, by decide⟩,
     imgCert := ⟨0x42, [9, 10], by decide, by decide⟩ }
@@ -562,12 +562,12 @@ example : HabConsts.csfSize < (csfBase exAuth.version [⟨.insKey 0 3 0 0 0 0, s
     encData [⟨.insKey 0 3 0 0 0 0, some (List.replicate 9000 0)⟩]).length := by decide +kernel
 
 /-- the recogniser answers on the two concrete containers (hypothesis of `gen_shape_sound` satisfiable) -/
-example : (genShape exFast).map (fun r => (r.2.1, r.2.2)) = some (true, exGaps) ∧
-    (genShape exAuth).map (fun r => (r.2.1, r.2.2)) = some (false, [[], [], [], [.unlock 0x1E 2 0], [], []]) ∧
+example : (genShape exFast).map (fun r => (r.2.1, r.2.2.1)) = some (true, exGaps) ∧
+    (genShape exAuth).map (fun r => (r.2.1, r.2.2.1)) = some (false, [[], [], [], [.unlock 0x1E 2 0], [], []]) ∧
     genShape (exPlain 1) = none := by decide +kernel
 
 /-- `GenCfg` with `fast = false` is inhabited too: the standard container above -/
-example : GenCfg exAuth exS false [[], [], [], exS.extras] := std_cfg_general _ _ exAuth_std
+example : GenCfg exAuth exS false [[], [], [], exS.extras] (fun _ => 0) := std_cfg_general _ _ exAuth_std
 
 end SpsdkVerif.C07
 
